@@ -871,6 +871,37 @@ func genC14(r *rng, n int, emit func(string)) {
 			}
 		}
 	}
+	// several fixed-width fields selected at once, all of the right width except one that is longer by a multiple of
+	// 256 or by a power of two (what a check on packed or narrowed lengths would confuse with the right width)
+	for _, pwh := range []int{1, 2, 3} {
+		pw := pwLen(otp.PasswordHashAlgorithm(pwh))
+		c := otp.SuiteConfig{Hash: 0, Digits: 6, TimeStep: 30, IncludeCounter: true, IncludeChallenge: true, Challenge: 1,
+			IncludePassword: true, PasswordHash: otp.PasswordHashAlgorithm(pwh), IncludeTimestamp: true}
+		var extra []int
+		for j := 1; j <= 24; j++ {
+			extra = append(extra, 256*j)
+		}
+		for k := 13; k <= 20; k++ {
+			extra = append(extra, 1<<k)
+		}
+		for _, e := range extra {
+			for f := 0; f < 3; f++ {
+				in := otp.OCRAInput{Counter: make([]byte, 8), Challenge: make([]byte, 8), Password: make([]byte, pw), Timestamp: make([]byte, 8)}
+				switch f {
+				case 0:
+					in.Counter = make([]byte, 8+e)
+				case 1:
+					in.Password = make([]byte, pw+e)
+				case 2:
+					in.Timestamp = make([]byte, 8+e)
+				}
+				emit(fmt.Sprintf("ivalidate %s %s", fmtSuite(c), fmtInput(in)))
+				c2 := c
+				c2.IncludeCounter = false
+				emit(fmt.Sprintf("ivalidate %s %s", fmtSuite(c2), fmtInput(in)))
+			}
+		}
+	}
 	for i := 0; i < n; i++ {
 		c := genSuite(r, !r.chance(1, 4))
 		in := genInput(r, c, !r.chance(1, 2))
@@ -958,6 +989,25 @@ func genC17(r *rng, n int, emit func(string)) {
 	for w := -1; w <= 20; w++ { // MustHexPadLeft: widths around the text's own, odd and even lengths
 		emit(fmt.Sprintf("mhex %s %d", hxs(hexString(r, 20)), w))
 		emit(fmt.Sprintf("mhex %s %d", hxs("0123456789abcdefABCDEF"[:r.intn(23)]), w))
+	}
+	// decimal questions at every boundary of the hexadecimal text's length (16^k - 1, 16^k, 16^k + 1) and of the decimal
+	// text's length (10^k - 1, 10^k), up to and beyond the 256 hexadecimal digits of the padded field
+	{
+		one := big.NewInt(1)
+		for k := 0; k <= 260; k++ {
+			p16 := new(big.Int).Lsh(one, uint(4*k))
+			for _, d := range []int64{-1, 0, 1} {
+				v := new(big.Int).Add(p16, big.NewInt(d))
+				if v.Sign() >= 0 {
+					emit("pchal " + hxs(v.String()))
+				}
+			}
+			if k <= 80 {
+				p10 := new(big.Int).Exp(big.NewInt(10), big.NewInt(int64(k)), nil)
+				emit("pchal " + hxs(p10.String()))
+				emit("pchal " + hxs(new(big.Int).Sub(p10, one).String()))
+			}
+		}
 	}
 	emit("mhex " + hxs("zz") + " 4")
 	emit("mhex " + hxs("") + " 0")
@@ -1106,6 +1156,8 @@ func grammarSuite(r *rng, wild bool) string {
 		n := fmt.Sprint(1 + r.intn(59))
 		if r.chance(1, 8) {
 			n = pick(r, []string{"0", "-1", "+5", "01", "", "x", "5124095576030431", "5124095576030432", "153722867280912931", "9223372036854775807", "9223372036854775808", "2562047788015216"})
+		} else if r.chance(1, 6) {
+			n = fmt.Sprint(pick(r, wrapAliases)) // a count whose product with 60 or 3600 wraps to a small number
 		}
 		unit := pick(r, []string{"S", "M", "H"})
 		if r.chance(1, 6) {
@@ -1255,6 +1307,22 @@ func genURLParamLine(r *rng, valid bool) string {
 	secret, _ := genSecret(r)
 	if r.chance(1, 3) {
 		secret = urlString(r, 5, false)
+	}
+	// fields that stand in a relation to one another (one a prefix of the other, with or without the delimiter the
+	// label uses, equal fields): a special case keyed on such a relation is not reached by independent fields
+	switch r.intn(12) {
+	case 0:
+		account = issuer + ":" + account
+	case 1:
+		account = issuer + pick(r, []string{"", "/", "%3A", "@", " "}) + account
+	case 2:
+		account = issuer
+	case 3:
+		account = issuer + ":"
+	case 4:
+		secret = issuer
+	case 5:
+		account = account + ":" + issuer
 	}
 	digits := pick(r, []uint64{0, 6, 8, 9, 10, 1, 7, 255, 11})
 	alg := pick(r, []uint64{0, 1, 2, 0, 1, 2, 3, 255})
